@@ -92,7 +92,29 @@ func under(t *Tape, f func(r *OpResult)) (res OpResult) {
 	return
 }
 
-func genOp(t *Tape, g spg.Generator) OpResult {
+// asGen turns a recipe value or pointer into a Generator through a pointer, so
+// that the harness compiles and behaves the same whether the library's methods
+// have value or pointer receivers.
+func asGen(x interface{}) spg.Generator {
+	switch v := x.(type) {
+	case spg.CharRecipe:
+		c := v
+		return &c
+	case *spg.CharRecipe:
+		return v
+	case spg.WLRecipe:
+		c := v
+		return &c
+	case *spg.WLRecipe:
+		return v
+	case spg.Generator:
+		return v
+	}
+	panic(fmt.Sprintf("asGen: unsupported %T", x))
+}
+
+func genOp(t *Tape, x interface{}) OpResult {
+	g := asGen(x)
 	return under(t, func(r *OpResult) {
 		p, err := g.Generate()
 		if err != nil {
@@ -113,7 +135,8 @@ func genOp(t *Tape, g spg.Generator) OpResult {
 	})
 }
 
-func entropyOp(t *Tape, g spg.Generator) OpResult {
+func entropyOp(t *Tape, x interface{}) OpResult {
+	g := asGen(x)
 	return under(t, func(r *OpResult) { r.F = float64(g.Entropy()) })
 }
 
